@@ -139,10 +139,16 @@ def OppClosed (s : List Nat) : Prop := ∀ h ∈ s, opp h ∈ s
 
 /-- on a strictly ascending list every edge contributes one or two handles; `|s| = 2 * #edges`
     holds exactly when every edge contributes both, i.e. `s` is closed under `opp` -/
-theorem length_le_and_eq_iff (s : List Nat) (hs : SortedLT s) :
+theorem length_le_and_eq_iff_aux (n : Nat) : ∀ (s : List Nat), s.length ≤ n → SortedLT s →
     s.length ≤ 2 * uniqByEdgeCount s ∧ (s.length = 2 * uniqByEdgeCount s ↔ OppClosed s) := by
-  induction hn : s.length using Nat.strongRecOn generalizing s with
-  | _ n ih =>
+  induction n with
+  | zero =>
+    intro s hn _
+    have : s = [] := List.eq_nil_of_length_eq_zero (by omega)
+    subst this
+    exact ⟨by simp [uniqByEdgeCount], by simp [uniqByEdgeCount, OppClosed]⟩
+  | succ n ih =>
+    intro s hn hs
     match s, hs, hn with
     | [], _, _ => exact ⟨by simp [uniqByEdgeCount], by simp [uniqByEdgeCount, OppClosed]⟩
     | [a], _, _ =>
@@ -156,6 +162,7 @@ theorem length_le_and_eq_iff (s : List Nat) (hs : SortedLT s) :
       have hbt : SortedLT (b :: t) := hs.2
       have htS : SortedLT t := sortedLT_tail hbt
       have hgt_b : ∀ x ∈ t, b < x := sortedLT_head_lt hbt
+      simp only [List.length_cons] at hn
       by_cases hd : a / 2 = b / 2
       · -- `a, b` are the two halfedges of one edge; the rest lies strictly above
         have hb : b = opp a := eq_opp_of_div_eq hd (Nat.ne_of_lt hab)
@@ -168,7 +175,7 @@ theorem length_le_and_eq_iff (s : List Nat) (hs : SortedLT s) :
         have hcnt : uniqByEdgeCount (a :: b :: t) = 1 + uniqByEdgeCount t := by
           rw [← uniq_cons_of_head_ne b t hhead]
           simp [uniqByEdgeCount, hd]
-        obtain ⟨ihle, iheq⟩ := ih t.length (by simp at hn; omega) t htS rfl
+        obtain ⟨ihle, iheq⟩ := ih t (by omega) htS
         rw [hcnt]
         refine ⟨by simp only [List.length_cons]; omega, ?_⟩
         have hclosed : OppClosed (a :: b :: t) ↔ OppClosed t := by
@@ -186,18 +193,19 @@ theorem length_le_and_eq_iff (s : List Nat) (hs : SortedLT s) :
           · intro hc h hh
             simp only [List.mem_cons] at hh
             rcases hh with rfl | rfl | hh
-            · simp [← hb]
-            · simp [← ha]
+            · rw [← hb]; simp
+            · rw [← ha]; simp
             · have := hc h hh; simp [this]
         rw [hclosed, ← iheq]
         simp only [List.length_cons]; omega
       · -- `a` is alone on its edge: too few handles, and `opp a` is missing
         have hlt : a / 2 < b / 2 := by omega
-        obtain ⟨ihle, _⟩ := ih (b :: t).length (by simp at hn ⊢; omega) (b :: t) hbt rfl
+        obtain ⟨ihle, _⟩ := ih (b :: t) (by simp only [List.length_cons]; omega) hbt
         have hcnt : uniqByEdgeCount (a :: b :: t) = 1 + uniqByEdgeCount (b :: t) := by
           simp [uniqByEdgeCount, hd]
         rw [hcnt]
-        have hlen : (a :: b :: t).length = 1 + (b :: t).length := by simp; omega
+        have hlen : (a :: b :: t).length = 1 + (b :: t).length := by
+          simp only [List.length_cons]; omega
         refine ⟨by omega, ?_⟩
         constructor
         · intro h; omega
@@ -210,6 +218,10 @@ theorem length_le_and_eq_iff (s : List Nat) (hs : SortedLT s) :
           · exact opp_ne a hm
           · rw [hm] at hdiv; omega
           · have := hgt_b _ hm; omega
+
+theorem length_le_and_eq_iff (s : List Nat) (hs : SortedLT s) :
+    s.length ≤ 2 * uniqByEdgeCount s ∧ (s.length = 2 * uniqByEdgeCount s ↔ OppClosed s) :=
+  length_le_and_eq_iff_aux s.length s (Nat.le_refl _) hs
 
 theorem length_eq_two_uniq_iff (s : List Nat) (hs : SortedLT s) :
     s.length = 2 * uniqByEdgeCount s ↔ OppClosed s := (length_le_and_eq_iff s hs).2
@@ -247,10 +259,10 @@ theorem closedSurface_iff_count (k : Kernel) (hfs : List Nat) :
   unfold ClosedSurface
   constructor
   · rintro ⟨hn, hc⟩ h hh
-    exact ⟨List.count_eq_one_of_mem hn hh, List.count_eq_one_of_mem hn (hc h hh)⟩
+    exact ⟨by rw [hn.count, if_pos hh], by rw [hn.count, if_pos (hc h hh)]⟩
   · intro h
     refine ⟨?_, fun x hx => ?_⟩
-    · rw [List.nodup_iff_count_le_one]
+    · rw [List.nodup_iff_count]
       intro a
       by_cases ha : a ∈ k.cellHalfedges hfs
       · exact Nat.le_of_eq (h a ha).1
